@@ -512,7 +512,7 @@ static void drv_step(struct cmd *c)
 		drv_begin(c);
 		if (!drv_int(c, "q", 0)) {
 			/* the answer: kind by its header command, values = the NUL separated fields behind the header */
-			const char *kind = !cr.calls ? "none" : (cr.len >= 2 && cr.data[0] == MPT_MESGTYPE(ParamGet)) ? "values" : "other";
+			const char *kind = !cr.calls ? "none" : (cr.len >= 2 && cr.data[0] == MPT_MESGTYPE(ParamGet)) ? "values" : "absent";
 			j_str("ret", kind);
 			j_arr_open("vals");
 			if (!strcmp(kind, "values")) {
@@ -648,7 +648,9 @@ static void drv_step(struct cmd *c)
 			/* bytes behind the path: the pending ones of an array backed path, the rest of the string otherwise */
 			if (!d) j_bytes("post", "", 0);
 			else if (po.flags & MPT_PATHFLAG(HasArray)) j_bytes("post", d, v > 0 ? (size_t) v : 0);
-			else j_bytes("post", d, po.len ? strlen(d) : 0);
+			/* the byte that ended the path is the string's terminator: nothing follows */
+			else if (!po.len || !po.base[po.off + po.len - 1]) j_bytes("post", "", 0);
+			else j_bytes("post", d, strlen(d));
 		}
 		drv_dbg();
 		drv_end();
